@@ -58,6 +58,10 @@ class Include(DirectivePlugin):
             new_state.parent = state.parent
             new_state.env["__file__"] = dest
             new_state.env["__including__"] = including + [source_file]
+            # the same line-ending normalisation that Markdown.parse applies to the document itself
+            content = content.replace("\r\n", "\n").replace("\r", "\n")
+            if not content.endswith("\n"):
+                content += "\n"
             new_state.process(content)
             block.parse(new_state)
             return new_state.tokens
